@@ -12,7 +12,7 @@ stable = set(base['stable_pass'])
 with tempfile.NamedTemporaryFile(suffix='.xml', delete=False) as f:
     xml = f.name
 cmd = ['/venv/bin/python', '-m', 'pytest', '-q', '-p', 'no:cacheprovider', '--timeout=900',
-       '--continue-on-collection-errors', f'--junitxml={xml}', '-n', '14'] + args
+       '--continue-on-collection-errors', f'--junitxml={xml}', '-n', os.environ.get('BASELINE_N', '14')] + args
 env = dict(os.environ)
 env.pop('LOKI_VERIF', None)
 r = subprocess.run(cmd, cwd=repo, capture_output=True, text=True, env=env)
